@@ -14,7 +14,8 @@ CONSTANTS MaxRowsA, MaxRowsB, MaxRowsC,   \* table sizes
           Stride, Seed,                   \* a case is selected when its hash is 0 modulo Stride (1 = all)
           Stride3,                        \* same for the third table (0 = no 3-way cases)
           RScale,                         \* replication factor of the scaled runs
-          RCheck                          \* the scaling law is verified by evaluation for r in 1..RCheck
+          RCheck,                         \* the scaling law is verified by evaluation for r in 2..RCheck
+          MetaStride                      \* the expensive meta-invariants are evaluated on 1 case in MetaStride (1 = all)
 
 VARIABLES phase, ta, tb, tc
 vars == <<phase, ta, tb, tc>>
@@ -114,11 +115,13 @@ Query3(i) ==
 (* ---------------- cases ---------------- *)
 H(s) == Len(s) * 101 + (IF Len(s) >= 1 THEN s[1] * 7 ELSE 0) + (IF Len(s) >= 2 THEN s[2] * 37 ELSE 0)
         + (IF Len(s) >= 3 THEN s[3] * 53 ELSE 0)
-\* always selected: an empty side; the same table with a duplicated key on both sides (duplicate rows, NULL keys)
-DupKeyTable(x) == Len(x) >= 2 /\ RowK(x[1]) = RowK(x[2])
+\* always selected: an empty side (against nothing, a NULL-key row, a plain row); the same table with a duplicated
+\* key on both sides (duplicate rows / duplicate keys, NULL or not)
+DupKeyTable(x) == Len(x) = 2 /\ RowK(x[1]) = RowK(x[2]) /\ x[1] <= 2 * NV
+Tiny(y) == Len(y) = 0 \/ (Len(y) = 1 /\ y[1] \in {1, NV + 1})
 Sel2(x, y) == \/ Stride = 1 \/ ((H(x) * 13 + H(y) * 29 + Seed * 17) % Stride = 0)
-              \/ (Len(x) = 0 /\ Len(y) <= 1) \/ (Len(y) = 0 /\ Len(x) <= 1)
-              \/ (x = y /\ DupKeyTable(x) /\ Len(x) = 2)
+              \/ (Len(x) = 0 /\ Tiny(y)) \/ (Len(y) = 0 /\ Tiny(x))
+              \/ (x = y /\ DupKeyTable(x))
 Sel3(x, y, z) == Stride3 # 0 /\ (Stride3 = 1 \/ ((H(x) * 13 + H(y) * 29 + H(z) * 31 + Seed * 17) % Stride3 = 0))
 
 Init == phase = 0 /\ ta = <<>> /\ tb = <<>> /\ tc = <<>>
@@ -130,33 +133,70 @@ Spec == Init /\ [][Next]_vars
 (* ---------------- what is printed ---------------- *)
 RowsOf(t) == [i \in DOMAIN t |-> <<RowK(t[i]), RowV(t[i])>>]
 
-\* deviations that can change the answer of q (keeps the subset enumeration small)
+\* deviations that can change the answer of q (keeps the enumeration of deviation sets small)
 Applicable(q) ==
     LET jt == IF q.n = 2 THEN q.j1 ELSE q.j2
         ont == IF q.n = 2 THEN q.on1 ELSE q.on2
         lt == 1..(q.n - 1)
         outer == jt \in {"left", "right", "full"}
+        wt == CmpTables(q.where)
+        single == wt # {} /\ (wt \subseteq {q.n} \/ wt \subseteq lt)
+        keycmp(s) == \E i \in DOMAIN s : s[i].op \in {"eq", "le"} /\ s[i].l.c = "k" /\ s[i].r.c = "k"
     IN (IF HasEqui(ont, lt, {q.n}) /\ Len(EquiOnly(ont, lt, {q.n})) < Len(ont) THEN {"on_residual_dropped"} ELSE {})
        \cup (IF q.n = 3 /\ HasEqui(q.on1, {1}, {2}) /\ Len(EquiOnly(q.on1, {1}, {2})) < Len(q.on1) THEN {"on_residual_dropped"} ELSE {})
-       \cup (IF outer /\ CmpTables(q.where) # {} /\ (CmpTables(q.where) \subseteq {q.n} \/ CmpTables(q.where) \subseteq lt)
-               THEN {"where_pushed_below_outer"} ELSE {})
+       \cup (IF outer /\ single THEN {"where_pushed_below_outer"} ELSE {})
        \cup (IF outer /\ q.where # <<>> THEN {"where_as_on"} ELSE {})
-       \cup (IF jt \in {"right", "full"} /\ \E i \in DOMAIN q.proj : ByNameOp(q, i) # q.proj[i] THEN {"right_unmatched_by_name"} ELSE {})
-       \cup (IF q.n = 3 /\ q.j1 \in {"inner", "comma"} /\ HasEqui(q.on1, {1}, {2}) THEN {"inner_input_empty"} ELSE {})
+       \cup (IF jt \in {"right", "full"} /\ (q.n = 3 \/ \E i \in DOMAIN q.proj : ByNameOp(q, i) # q.proj[i]) THEN {"right_unmatched_by_name"} ELSE {})
+       \cup (IF keycmp(ont) \/ keycmp(q.where) \/ (q.n = 3 /\ keycmp(q.on1)) THEN {"null_eq_null"} ELSE {})
+       \cup (IF ~outer /\ Len(SpanOnly(ont, lt, {q.n})) < Len(ont) THEN {"reorder_drops_single_side_on"} ELSE {})
+       \cup (IF ~outer /\ single /\ ont # <<>> THEN {"reorder_drops_all_on"} ELSE {})
+       \cup (IF q.where # <<>> THEN {"inl_filters_ignored"} ELSE {})
+       \cup (IF jt = "right" THEN {"inl_right_as_inner"} ELSE {})
+       \cup (IF q.n = 3 THEN {"join_input_empty"} ELSE {})
        \cup (IF q.n = 3 /\ q.j1 \in {"left", "right", "full"} THEN {"outer_input_as_inner"} ELSE {})
-       \cup (IF q.n = 3 /\ CmpTables(q.where) # {} /\ CmpTables(q.where) \subseteq lt THEN {"input_where_lost"} ELSE {})
+       \cup (IF q.n = 3 /\ wt # {} /\ wt \subseteq lt THEN {"input_where_lost"} ELSE {})
+\* deviation sets that are evaluated: every single applicable deviation, and the complete behaviour of each code
+\* path ("profile": everything the hash / nested-loop code does wrong at once, with or without the data-dependent
+\* reordering, with or without an empty input; everything the index operator does wrong at once)
+HNL0 == {"on_residual_dropped", "where_pushed_below_outer", "where_as_on", "right_unmatched_by_name", "null_eq_null",
+         "outer_input_as_inner", "input_where_lost"}
+Profiles == LET base == {HNL0 \cup r : r \in SUBSET {"reorder_drops_single_side_on", "reorder_drops_all_on"}}
+                        \cup {KFIndex \cup {"outer_input_as_inner", "input_where_lost"}}
+            IN base \cup {p \cup {"join_input_empty"} : p \in base}
+DevSets(q) == LET ap == Applicable(q)
+              IN ({p \cap ap : p \in Profiles} \cup {{k} : k \in ap}) \ {{}}
 
 \* a bag with both multiplicities: n on the plain tables, s on the tables scaled by RScale
-Bag2(q, kf, tabs) ==
-    LET S == ImplTuples(q, kf, tabs)
-        plain == ImplBagOf(q, kf, S, tabs, 1)
-        scaled == ImplBagOf(q, kf, S, tabs, RScale)
-    IN {[r |-> e.r, n |-> e.n, s |-> BagCount(scaled, e.r)] : e \in plain}
+Bag2X(q, kf, S, tabs, lempty) ==
+    LET rows == {ImplProjRow(q, kf, t, tabs, lempty) : t \in S}
+        RECURSIVE Sum(_)
+        Sum(T) == IF T = {} THEN 0 ELSE LET t == CHOOSE t \in T : TRUE IN Pow(RScale, Parts(t)) + Sum(T \ {t})
+    IN {LET T == {t \in S : ImplProjRow(q, kf, t, tabs, lempty) = x} IN [r |-> x, n |-> Cardinality(T), s |-> Sum(T)] : x \in rows}
+Bag2(q, kf, tabs) == LET e == ImplEval(q, kf, tabs) IN Bag2X(q, kf, e.S, tabs, e.lempty)
+
+\* blame: a profile that changes the answer is reduced to a locally minimal deviation set with the same answer
+\* (deviations are tried for removal in the fixed order KFOrder; removing any remaining one changes the answer)
+KFOrder == <<"null_eq_null", "inl_filters_ignored", "inl_right_as_inner", "input_where_lost", "right_unmatched_by_name",
+             "reorder_drops_single_side_on", "reorder_drops_all_on", "on_residual_dropped", "where_pushed_below_outer",
+             "where_as_on", "outer_input_as_inner", "join_input_empty">>
+RECURSIVE Prune(_, _, _, _, _)
+Prune(q, tabs, P, bag, i) ==
+    IF i > Len(KFOrder) THEN P
+    ELSE IF KFOrder[i] \in P /\ Bag2(q, P \ {KFOrder[i]}, tabs) = bag THEN Prune(q, tabs, P \ {KFOrder[i]}, bag, i + 1)
+    ELSE Prune(q, tabs, P, bag, i + 1)
 
 ResOf(q, tabs) ==
     LET ref == Bag2(q, {}, tabs)
-        devs == {[kf |-> k, bag |-> Bag2(q, k, tabs)] : k \in (SUBSET Applicable(q)) \ {{}}}
-    IN [exp |-> ref, dev |-> {d \in devs : d.bag # ref}]
+        ap == Applicable(q)
+        singles == {[kf |-> {k}, bag |-> Bag2(q, {k}, tabs)] : k \in ap}
+        profs == {[kf |-> p, bag |-> Bag2(q, p, tabs)] : p \in {x \cap ap : x \in Profiles} \ {{}}}
+        pruned == {[kf |-> Prune(q, tabs, d.kf, d.bag, 1), bag |-> d.bag] : d \in {d \in profs : d.bag # ref /\ Cardinality(d.kf) > 1}}
+        chain == IF IsInnerChain(q)
+                 THEN {[kf |-> {"inner_chain_conjuncts_dropped"} \cup (IF nn THEN {"null_eq_null"} ELSE {}),
+                        bag |-> Bag2X(q, {}, ChainTuples(q, D, nn, tabs), tabs, FALSE)]
+                       : D \in (SUBSET DOMAIN ChainAtoms(q)) \ {{}}, nn \in BOOLEAN}
+                 ELSE {}
+    IN [exp |-> ref, dev |-> {d \in singles \cup pruned \cup chain : d.bag # ref}]
 
 Case2 == [n |-> 2, a |-> RowsOf(ta), b |-> RowsOf(tb), res |-> [i \in 1..NQ2 |-> ResOf(Query2(i), <<ta, tb>>)]]
 Case3 == [n |-> 3, a |-> RowsOf(ta), b |-> RowsOf(tb), c |-> RowsOf(tc),
@@ -169,6 +209,7 @@ EmitInv == /\ phase = 0 => PrintT(<<"T", ToJson(Catalogue)>>)
 
 (* ---------------- meta-invariants: the algebra of the oracle ---------------- *)
 T2 == <<ta, tb>>
+MetaSel == MetaStride = 1 \/ ((H(ta) + 3 * H(tb) + 5 * H(tc) + Seed) % MetaStride = 0)
 T3 == <<ta, tb, tc>>
 P1 == Proj2[1]
 J(j, on, w) == Ref(Q2(j, on, w, P1), T2)
@@ -202,22 +243,22 @@ CrossSize == phase = 2 =>
 Mirror == phase = 2 => \A o \in DOMAIN On2 :
     J("right", On2[o], <<>>) = SwapBag(Ref(Q2("left", SwapAtoms(On2[o]), <<>>, P1), <<tb, ta>>))
 \* WHERE only removes rows; on an inner join it is the same as more ON
-WhereFilters == phase = 2 => \A o \in DOMAIN On2, w \in DOMAIN Where2 :
+WhereFilters == (phase = 2 /\ MetaSel) => \A o \in DOMAIN On2, w \in DOMAIN Where2 :
     /\ \A j \in {"inner", "left", "right", "full"} : SubBag(J(j, On2[o], Where2[w]), J(j, On2[o], <<>>))
     /\ J("inner", On2[o], Where2[w]) = J("inner", On2[o] \o Where2[w], <<>>)
 \* a NULL key never matches under an equality
 NullNeverMatches == phase = 2 =>
     \A e \in J("inner", On2[1], <<>>) : e.r[1] # N /\ e.r[3] # N /\ e.r[1] = e.r[3]
 \* Impl without deviations is the reference; the scaling law holds for the reference and for every deviation set
-ImplIsRef == /\ phase = 2 => \A i \in 1..NQ2 : Impl(Query2(i), {}, T2, 1) = Ref(Query2(i), T2)
-             /\ phase = 3 => \A i \in 1..NQ3 : Impl(Query3(i), {}, T3, 1) = Ref(Query3(i), T3)
+ImplIsRef == /\ (phase = 2 /\ MetaSel) => \A i \in 1..NQ2 : Impl(Query2(i), {}, T2, 1) = Ref(Query2(i), T2)
+             /\ (phase = 3 /\ MetaSel) => \A i \in 1..NQ3 : Impl(Query3(i), {}, T3, 1) = Ref(Query3(i), T3)
 ScaleLawHolds ==
-    /\ phase = 2 => \A i \in 1..NQ2 : \A r \in 2..RCheck :
+    /\ (phase = 2 /\ MetaSel) => \A i \in 1..NQ2 : \A r \in 2..RCheck :
           /\ ScaleLaw(Query2(i), T2, r)
-          /\ \A k \in SUBSET Applicable(Query2(i)) : Impl(Query2(i), k, ScaleAll(T2, r), 1) = Impl(Query2(i), k, T2, r)
-    /\ phase = 3 => \A i \in 1..NQ3 : \A r \in 2..RCheck : ScaleLaw(Query3(i), T3, r)
+          /\ \A k \in DevSets(Query2(i)) : Impl(Query2(i), k, ScaleAll(T2, r), 1) = Impl(Query2(i), k, T2, r)
+    /\ (phase = 3 /\ MetaSel) => \A i \in 1..NQ3 : \A r \in 2..RCheck : ScaleLaw(Query3(i), T3, r)
 \* 3-way: joining c last with a cross join multiplies; an inner 3-way join is the filtered cross product
-ThreeWay == phase = 3 =>
+ThreeWay == (phase = 3 /\ MetaSel) =>
     /\ BagSize(Ref(Query3(NJoin3 + 1), T3)) = Len(ta) * Len(tb) * Len(tc)
     /\ BagSize(Ref(Query3(NJoin3 + 3), T3)) = BagSize(J("inner", On3a[1], <<>>)) * Len(tc)
     /\ \A o1 \in DOMAIN On3a, o2 \in DOMAIN On3b :
